@@ -8,7 +8,7 @@ Import ListNotations.
 Local Open Scope N_scope.
 
 Lemma xe_digits : forall ds rest sz ii tag val nt nv tcap vcap,
-  all_digits ds -> ii + lenN ds <= sz -> nt + lenN ds <= tcap ->
+  all_digits ds -> ii + lenN ds <= sz -> nt + lenN ds < tcap ->
   xe_loop (ds ++ rest) sz ii false tag val nt nv tcap vcap =
   xe_loop rest sz (ii + lenN ds) false (rev ds ++ tag) val (nt + lenN ds) nv tcap vcap.
 Proof.
@@ -16,7 +16,7 @@ Proof.
   - cbn [app lenN rev]. rewrite !N.add_0_r. reflexivity.
   - inversion Hd as [|? ? Hx Hd']; subst. cbn [lenN] in *. cbn [app xe_loop].
     replace (ii <? sz) with true by (symmetry; apply N.ltb_lt; lia). rewrite Hx.
-    replace (nt <? tcap) with true by (symmetry; apply N.ltb_lt; lia).
+    replace (nt + 1 <? tcap) with true by (symmetry; apply N.ltb_lt; lia).
     rewrite IH by (try assumption; lia). cbn [rev]. rewrite <- app_assoc. cbn [app].
     f_equal; lia.
 Qed.
@@ -34,7 +34,7 @@ Proof.
     rewrite app_nil_r, N.add_0_r. reflexivity.
   - inversion Hv as [|? ? Hx Hv']; subst. cbn [lenN] in *. cbn [app xe_loop].
     replace (ii <? sz) with true by (symmetry; apply N.ltb_lt; lia). rewrite Hx.
-    replace (nv <? vcap) with true by (symmetry; apply N.ltb_lt; lia).
+    replace (nv + 1 <? vcap) with true by (symmetry; apply N.ltb_lt; lia).
     rewrite IH by (try assumption; lia). cbn [rev]. rewrite <- app_assoc. cbn [app]. f_equal. lia.
 Qed.
 
